@@ -584,6 +584,7 @@ func (c *codegen) convertFuncDecl(file ast.Node, decl *ast.FuncDecl, pkg *types.
 	}
 
 	f.rng.Start = uint16(c.prog.Len())
+	f.converted = true
 	c.scope = f
 	ast.Inspect(decl, c.scope.analyzeVoidCalls) // @OPTIMIZE
 
